@@ -64,12 +64,13 @@ structure DictLoaded (D : Decomp) (f : Bytes) (h : Hdr) (c : Ctx) : Prop where
   ready : ∀ d, h.chunks.head? = some d → 0 < d.len → c.dict.isSome = true
   right : h.compType ≠ 0 → c.dict = dictMain D f h
 
-/-- **C14 (content)**: on a well-formed file a data request for chunk `k ≥ 1` returns the chunk's declared size and exactly its
-content, whatever the context did before -/
-theorem chunk_data_exact (wf : WF H D f h) (c : Ctx) (hc : c.hdr = h) (he : c.err = false)
+/-- **C14 (content, any buffer up to the chunk's size)**: on a well-formed file a data request for chunk `k ≥ 1` with a buffer of
+`n ≤ declared size` bytes returns `n` and exactly the first `n` bytes of the chunk's content, whatever the context did before -/
+theorem chunk_data_prefix (wf : WF H D f h) (c : Ctx) (hc : c.hdr = h) (he : c.err = false)
     (hfh : f4 h = true ∨ c.fullHash.isSome = true) (hdl : DictLoaded D f h c)
-    (k : Nat) (hk : 1 ≤ k) (ch : Chunk) (hch : h.chunks[k]? = some ch) (hl : ch.len ≠ 0) :
-    (getChunkData H D f c k ch.len).1 = ⟨ch.len, contrib D f h k ch⟩ := by
+    (k : Nat) (hk : 1 ≤ k) (ch : Chunk) (hch : h.chunks[k]? = some ch) (n : Nat) (hn : 0 < n) (hnl : n ≤ ch.len) :
+    (getChunkData H D f c k n).1 = ⟨n, (contrib D f h k ch).take n⟩ := by
+  have hl : ch.len ≠ 0 := by omega
   have hlt := getElem_lt hch
   obtain ⟨d, hd⟩ : ∃ d, h.chunks.head? = some d := by
     cases hx : h.chunks with
@@ -97,7 +98,7 @@ theorem chunk_data_exact (wf : WF H D f h) (c : Ctx) (hc : c.hdr = h) (he : c.er
     rw [this] at hp
     rw [Nat.add_zero]
     exact (fileRead_full_split f (dOff h) ch.start _ hp).1
-  have hmid : Mid H D f h false true ch.len c.dict (done D f h k) ([] ++ []) c2 k ch := by
+  have hmid : Mid H D f h false true n c.dict (done D f h k) ([] ++ []) c2 k ch := by
     rw [← hc2]
     refine ⟨⟨hc, he, rfl, rfl⟩, rfl, rfl, hch, Nat.zero_le _, hsm, ?_, ?_, ?_, ?_, ?_, ?_, ?_, (fun hu => by cases hu), ?_⟩
     · show dataOff c + ch.start = dOff h + ch.start + 0
@@ -116,21 +117,20 @@ theorem chunk_data_exact (wf : WF H D f h) (c : Ctx) (hc : c.hdr = h) (he : c.er
     · intro _ hz
       exact ⟨hdl.right hz, fun h0 => by omega⟩
     · intro hs; have := hs.1; omega
-  have hsi : SI H D f h false true ch.len c.dict (done D f h k) ([] ++ []) c2 := .mid k ch hmid
-  have hn : 0 < ch.len := by omega
+  have hsi : SI H D f h false true n c.dict (done D f h k) ([] ++ []) c2 := .mid k ch hmid
   -- comp_read from there
   unfold compRead
   have e2 : c2.err = false := by rw [← hc2]; exact he
   have s2 : c2.started = true := by rw [← hc2]
   have h2 : c2.hdr = h := by rw [← hc2]; exact hc
   have d2 : c2.dict = c.dict := by rw [← hc2]
-  rw [if_neg (by simp [e2]), if_neg (by simp [s2]), if_neg hl, h2, hd]
+  rw [if_neg (by simp [e2]), if_neg (by simp [s2]), if_neg (by omega), h2, hd]
   simp only
   rw [if_neg (by rw [d2]; exact hno)]
-  have hgood := readLoop_SI (H := H) (D := D) (f := f) wf.run hn (fun hu => by cases hu) (fuelFor f c2 ch.len) c2 [] false hsi
-  have hprog := readLoop_prog wf hn (fun hu => by cases hu) (fuelFor f c2 ch.len) c2 [] (mu_lt_fuel wf hsi) (by simp) hsi
+  have hgood := readLoop_SI (H := H) (D := D) (f := f) wf.run hn (fun hu => by cases hu) (fuelFor f c2 n) c2 [] false hsi
+  have hprog := readLoop_prog wf hn (fun hu => by cases hu) (fuelFor f c2 n) c2 [] (mu_lt_fuel wf hsi) (by simp) hsi
   revert hgood hprog
-  generalize readLoop H D f ch.len true (fuelFor f c2 ch.len) c2 [] false = r
+  generalize readLoop H D f n true (fuelFor f c2 n) c2 [] false = r
   intro hgood hprog
   obtain ⟨ro, c3⟩ := r
   simp only at hgood hprog ⊢
@@ -142,9 +142,9 @@ theorem chunk_data_exact (wf : WF H D f h) (c : Ctx) (hc : c.hdr = h) (he : c.er
   have hp2 : (done D f h k ++ contrib D f h k ch) <+: done D f h h.chunks.length := by
     rw [← done_succ D f h k ch hch]; exact done_prefix (k + 1) hlt
   have hcl : (contrib D f h k ch).length = ch.len := contrib_len_of_need k ch (wf.needs k ch hlt hch)
-  have hle : ro.bytes.length ≤ ch.len := hprog.2
-  have hbytes : ro.bytes = contrib D f h k ch := by
-    rcases Nat.lt_or_ge ro.bytes.length ch.len with hlt' | hge
+  have hle : ro.bytes.length ≤ n := hprog.2
+  have hlen : ro.bytes.length = n := by
+    rcases Nat.lt_or_ge ro.bytes.length n with hlt' | hge
     · -- a short answer would mean the stream ended inside the file's content
       exfalso
       obtain ⟨hdc, hend⟩ := hshort hlt'
@@ -165,18 +165,26 @@ theorem chunk_data_exact (wf : WF H D f h) (c : Ctx) (hc : c.hdr = h) (he : c.er
         have := congrArg List.length hz
         simp only [List.length_append] at this
         omega
-    · have hlen : (done D f h k ++ ro.bytes).length = (done D f h k ++ contrib D f h k ch).length := by
-        simp only [List.length_append]; omega
-      have := List.prefix_of_prefix_length_le hp1 hp2 (by omega)
-      have heq := this.eq_of_length hlen
-      exact List.append_cancel_left heq
-  have : ro = ⟨ch.len, contrib D f h k ch⟩ := by
-    cases ro with
-    | mk ret bytes =>
-      simp only at hret hbytes
-      subst hbytes
-      rw [hret, hcl]
-  exact this
+    · omega
+  have hpre : ro.bytes <+: contrib D f h k ch := by
+    have := List.prefix_of_prefix_length_le hp1 hp2 (by simp only [List.length_append]; omega)
+    exact (List.prefix_append_right_inj _).mp this
+  have hbytes : ro.bytes = (contrib D f h k ch).take n := by
+    rw [← hlen]; exact List.prefix_iff_eq_take.mp hpre
+  cases ro with
+  | mk ret bytes =>
+    simp only at hret hbytes hlen
+    rw [hret, hlen, hbytes]
+
+/-- **C14 (content)**: with a buffer of the chunk's declared size the request returns that size and exactly the chunk's content -/
+theorem chunk_data_exact (wf : WF H D f h) (c : Ctx) (hc : c.hdr = h) (he : c.err = false)
+    (hfh : f4 h = true ∨ c.fullHash.isSome = true) (hdl : DictLoaded D f h c)
+    (k : Nat) (hk : 1 ≤ k) (ch : Chunk) (hch : h.chunks[k]? = some ch) (hl : ch.len ≠ 0) :
+    (getChunkData H D f c k ch.len).1 = ⟨ch.len, contrib D f h k ch⟩ := by
+  have hcl : (contrib D f h k ch).length = ch.len := contrib_len_of_need k ch (wf.needs k ch (getElem_lt hch) hch)
+  rw [chunk_data_prefix wf c hc he hfh hdl k hk ch hch ch.len (by omega) (Nat.le_refl _)]
+  congr 1
+  rw [← hcl, List.take_length]
 
 end
 end Zck.Stream
